@@ -634,6 +634,14 @@ def auto_ops(c, rules, prefix):
                 else:
                     # inline / named arguments (or none): the whole macro call is replaced by the call with the arguments in placeholder order
                     out.append((sig[k][1], sig[close][2], 'rep', '%s(%s%s)' % (name, wpre if texts else (writer or ''), ', '.join('&(%s)' % t for t in texts)), {'tag': 'T14', 'fmt_site': site}))
+    if 'log' in rules:
+        # T6: a statement `info!(..);` / `warn!(..);` / `error!(..);` / `debug!(..);` / `trace!(..);` (log crate) is dropped wherever it stands in the
+        # CURRENT text - logging is not part of any property; only whole statements (preceded by `;` `{` `}` and followed by `;`)
+        for k in range(len(st) - 3):
+            if st[k] in ('info', 'warn', 'error', 'debug', 'trace') and st[k + 1] == '!' and st[k + 2] == '(' and (k == 0 or st[k - 1] in (';', '{', '}')):
+                close = match_close(st, k + 2)
+                if close + 1 < len(st) and st[close + 1] == ';':
+                    out.append((sig[k][1], sig[close + 1][2], 'drop', '', {'tag': 'T6'}))
     for rule in rules:
         # ('tok', 'a.b()', 'f(a)', tag): every occurrence of the token sequence in the current text is rewritten (current-anchored,
         # so that deleting or duplicating an occurrence does not lose an anchor)
